@@ -38,6 +38,18 @@ CHECKS = {
              "wording not modelled (non-emptiness checked on the real Formatter).",
         technique="Coq proof (partial-vs-total validator agreement) + vm_compute correspondence + direct oracle",
         design="6 C08"),
+    "C14": dict(
+        text="Theorems (Coq, all nested values, no bound on depth/size): fn_converts_exactly_plain / fn_refuses_nonplain "
+             "(from_native returns a schema exactly for plain values and raises ValueError for every other value at any "
+             "depth), fn_accepts (the schema is well-formed and its own value conforms; NaN excluded: known finding "
+             "F10, refuted witness proved), fn_rejects_different (every value the schema accepts is the same plain value "
+             "up to True/False~1/0 and math.isclose). Tie: per-run comparison of from_native's result/exception with "
+             "the model; oracle on /repo: validate(self), fake under a tape returns exactly the value consuming no "
+             "draw, every one-step perturbation at every depth is rejected, non-plain zoo refused with ValueError.",
+        note=COMMON_NOTE + "The generation clause is checked by the oracle on the real generator (and by the model "
+             "theorem gen_from_native once props/C01 is in place). F10 (NaN) is an open known finding.",
+        technique="Coq proof (nested induction over values) + vm_compute correspondence + direct oracle",
+        design="6 C14"),
 }
 
 
